@@ -48,6 +48,12 @@ def make_seg(kind, p, heading, L):
         c2 = p + (L / 2.0) * heading
         e = c2 + (L / 2.0) * h_out
         return CubicBezier(p, p, c2, e), h_out
+    if kind == 'O':
+        # a loop: the cubic returns to its start point (chord length 0, arc length > 0)
+        c1 = p + L * heading * cmath.exp(0.5j)
+        c2 = p + L * heading * cmath.exp(1.8j)
+        h_out = (p - c2) / abs(p - c2)
+        return CubicBezier(p, c1, c2, p), h_out
     if kind == 'L':
         e = p + L * heading
         return Line(p, e), heading
@@ -138,7 +144,7 @@ def check(segs, closed, mjs, tight, case, acc):
     for j in joint_idx:
         u, v = fd_tangent(segs[j - 1], 1), fd_tangent(segs[j], 0)
         ang = abs(cmath.phase(v / u))
-        if ang > math.radians(179.5):
+        if ang > math.radians(179.95):
             acc.filt('180_degree_reversal')
             return
         if ang > 1e-6:
@@ -170,6 +176,12 @@ def check(segs, closed, mjs, tight, case, acc):
     else:
         if not (out[0].start == p[0].start and out[-1].end == p[-1].end):
             acc.violation('endpoints_moved', sig, case, observed=[out[0].start, out[-1].end], expected=[p[0].start, p[-1].end])
+            return
+    # no piece may be a single point (an elbow of size zero leaves the corner as it was)
+    for j in range(m):
+        b = [complex(q) for q in out[j].bpoints()]
+        if all(q == b[0] for q in b):
+            acc.violation('degenerate_piece', sig, case, observed=repr(out[j])[:200], detail='output segment %d of %d' % (j, m))
             return
     # no kinks: independent test + the library's own
     for j in list(range(1, m)) + ([0] if closed else []):
@@ -246,6 +258,18 @@ def gen_cases(tier):
             for L_ in (3.0, 60.0):
                 for pr in (PARAMS[2], PARAMS[3]):
                     yield ('open', ''.join(kinds), list(a), [L_] * len(kinds), pr)
+    # loops (start == end) next to lines and cubics
+    for kinds in (('L', 'O', 'L'), ('C', 'O', 'L'), ('L', 'O'), ('O', 'C'), ('L', 'O', 'C')):
+        for a in itertools.product([45, -90, 135], repeat=len(kinds) - 1):
+            for L_ in (3.0, 60.0):
+                for pr in (PARAMS[2], PARAMS[3]):
+                    yield ('open', ''.join(kinds), list(a), [L_] * len(kinds), pr)
+    # corners that are almost straight and corners that almost reverse (but do not)
+    for kinds in itertools.product('LC', repeat=2):
+        for a in (0.01, -0.1, 0.2, 1.0, 179.0, -179.8, 179.9):
+            for L_ in (3.0, 60.0):
+                for pr in (PARAMS[2], PARAMS[3]):
+                    yield ('open', ''.join(kinds), [a], [L_, L_], pr)
     for kind in 'LC':
         yield ('single', kind, [], [3.0], PARAMS[3])
 
